@@ -18,7 +18,34 @@ func (db *DB) Insert(stream string, ts time.Time, dims map[string]interface{}, v
 	return db.InsertRaw(stream, ts, bytemap.New(dims), bytemap.New(vals))
 }
 
+// checkByteMap makes sure that the given bytes, which may come straight off the
+// network, can be read as a ByteMap. Reading a malformed ByteMap panics.
+func checkByteMap(name string, bm bytemap.ByteMap) (err error) {
+	defer func() {
+		p := recover()
+		if p != nil {
+			err = fmt.Errorf("Malformed %v: %v", name, p)
+		}
+	}()
+	bm.Iterate(true, true, func(key string, value interface{}, valueBytes []byte) bool {
+		return true
+	})
+	// Slice and Split walk the structure with their own code
+	bm.Split(nil)
+	return nil
+}
+
 func (db *DB) InsertRaw(stream string, ts time.Time, dims bytemap.ByteMap, vals bytemap.ByteMap) error {
+	// Limit capacity to length so that a malformed map can't make us read
+	// whatever follows it in the buffer that it arrived in
+	dims, vals = dims[:len(dims):len(dims)], vals[:len(vals):len(vals)]
+	if err := checkByteMap("dims", dims); err != nil {
+		return err
+	}
+	if err := checkByteMap("vals", vals); err != nil {
+		return err
+	}
+
 	if db.opts.Follow != nil {
 		return errors.New("Declining to insert data directly to follower")
 	}
